@@ -462,6 +462,29 @@ func binDecode(b []value, t types.Type, big bool) (value, []value) {
 	panic("binDecode " + t.String())
 }
 
+// xz is modelled as the identity codec (DESIGN 2.5): NewWriter/NewReader wrap the
+// underlying stream unchanged. Properties that depend on the compressed form are
+// outside every claim.
+func addXzIntrinsics() {
+	t := intrinsicTable
+	wrap := func(in *Interp, fr *frame, args []value) value {
+		cell := value(structure{args[0]})
+		return tuple{&cell, iface{}}
+	}
+	t["github.com/ulikunitz/xz.NewReader"] = wrap
+	t["github.com/ulikunitz/xz.NewWriter"] = wrap
+	inner := func(v value) iface { return (*v.(*value)).(structure)[0].(iface) }
+	t["(*github.com/ulikunitz/xz.Reader).Read"] = func(in *Interp, fr *frame, args []value) value {
+		r := inner(args[0])
+		return in.call(fr, fr.callPos, in.methodByName(r.t, "Read"), []value{r.v, args[1]})
+	}
+	t["(*github.com/ulikunitz/xz.Writer).Write"] = func(in *Interp, fr *frame, args []value) value {
+		w := inner(args[0])
+		return in.call(fr, fr.callPos, in.methodByName(w.t, "Write"), []value{w.v, args[1]})
+	}
+	t["(*github.com/ulikunitz/xz.Writer).Close"] = func(in *Interp, fr *frame, args []value) value { return iface{} }
+}
+
 func addBinaryIntrinsics() {
 	intrinsicTable["encoding/binary.Write"] = func(in *Interp, fr *frame, args []value) value {
 		big := isBigEndian(args[1])
